@@ -26,7 +26,7 @@ ASSUMPTIONS = ['C05_noninterference uses the standard-library axiom functional_e
                'the concrete curve arithmetic (Model/Secp256k1.v) is assumed, not proved, to be a group (no elliptic-curve library installed)']
 RULE = ('spending transactions 1..4 in / 0..4 out; templates P2PK, P2PKH, bare m-of-n, P2SH-wrapped m-of-n; hash types '
         '{ALL,NONE,SINGLE}x{,ANYONECANPAY} plus undefined bytes (0, 4, 0x41, 0x7f, 0xff); every signing position; followed by one '
-        'edit from the catalogue; one case in five asks for short DER signatures (< 70 bytes: re-signed until r or s has leading zero bytes); engine 502: signer plans for the same templates (which listed or foreign key signs which slot: honest ordered subsets, one signer repeated in every slot, right keys in the wrong order, a foreign signature, too few / too many signatures), accepted iff the last m signatures are by distinct listed keys in listing order (surplus leading signatures are never examined); followed by one edit from the catalogue (each field of each input/output, insertion, removal, reordering, witness, foreign key) or none. '
+        'edit from the catalogue; one case in eight asks for short DER signatures (< 70 bytes: re-signed until r or s has leading zero bytes); engine 502: signer plans for the same templates (which listed or foreign key signs which slot: honest ordered subsets, one signer repeated in every slot, right keys in the wrong order, a foreign signature, too few / too many signatures), accepted iff the last m signatures are by distinct listed keys in listing order (surplus leading signatures are never examined); followed by one edit from the catalogue (each field of each input/output, insertion, removal, reordering, witness, foreign key) or none. '
         'non-trivial = all; distinct by case text')
 IN_COQ_SAMPLE = 0     # elliptic-curve arithmetic under vm_compute is too slow (measured: 25 s per scalar multiplication)
 
@@ -147,7 +147,7 @@ def generate(rng, tier, boost):
         if e is None:
             kind = 'none'; e = apply_edit(rng, t, idx, 'none')
         t2, idx2 = e
-        cases.append((501, [template, secrets, m, t, idx, hts, t2, idx2, wrongkey, EDITS.index(kind) + (100 if c % 5 == 0 else 0)]))
+        cases.append((501, [template, secrets, m, t, idx, hts, t2, idx2, wrongkey, EDITS.index(kind) + (100 if c % 8 == 0 else 0)]))
     # signer plans (engine 502): which key signs which slot
     for c in range(n // 2):
         template = c % 4
@@ -180,5 +180,5 @@ def generate(rng, tier, boost):
         if e is None:
             kind = 'none'; e = apply_edit(rng, t, idx, 'none')
         t2, idx2 = e
-        cases.append((502, [template, secrets, m, t, idx, hts, t2, idx2, [nk, plan], EDITS.index(kind) + (100 if c % 5 == 0 else 0)]))
+        cases.append((502, [template, secrets, m, t, idx, hts, t2, idx2, [nk, plan], EDITS.index(kind) + (100 if c % 8 == 0 else 0)]))
     return cases
